@@ -102,6 +102,7 @@ func main() {
 	var genErrors []string
 	assumes := map[string]bool{}
 	funcsUnderContract := map[string]bool{}
+	lemmaContracts := map[string]bool{}
 	var lastWorld *World
 	for vi, tags := range variants {
 		w, err := LoadWorld(*repo, tags, overlay, []string{"./..."})
@@ -189,6 +190,10 @@ func main() {
 			for len(queue) > 0 {
 				n := queue[0]
 				queue = queue[1:]
+				if strings.HasPrefix(n, "contract:") {
+					lemmaContracts[strings.TrimPrefix(n, "contract:")] = true
+					continue
+				}
 				lem := w.Lemmas[n]
 				if lem == nil {
 					genErrors = append(genErrors, "unknown lemma "+n)
@@ -215,6 +220,14 @@ func main() {
 			}
 		}
 		_ = nObl
+		if *only == "" {
+			for c := range lemmaContracts {
+				short := strings.TrimPrefix(c, modPath+"/")
+				if !funcsUnderContract[short] {
+					genErrors = append(genErrors, "a lemma relies on the contract of "+short+", which is not verified in this run: add it to the property's function list")
+				}
+			}
+		}
 		allObls = append(allObls, w.Obls...)
 		genErrors = append(genErrors, w.Errors...)
 		for a := range w.Assumes {
@@ -235,25 +248,38 @@ func main() {
 		return
 	}
 
-	// solve
+	// solve: one job per SMT query, largest first
+	var jobs2 []*queryJob
+	byPO := map[*PreparedObl][]*queryJob{}
+	for _, po := range prepared {
+		js := po.Jobs()
+		byPO[po] = js
+		jobs2 = append(jobs2, js...)
+	}
+	sort.SliceStable(jobs2, func(i, j int) bool {
+		return len(jobs2[i].po.Queries[jobs2[i].idx].Text) > len(jobs2[j].po.Queries[jobs2[j].idx].Text)
+	})
 	var wg sync.WaitGroup
-	ch := make(chan *PreparedObl)
+	ch := make(chan *queryJob)
 	for i := 0; i < *jobs; i++ {
 		wg.Add(1)
 		go func() {
 			defer wg.Done()
-			for po := range ch {
-				po.Run(timeout)
+			for j := range ch {
+				j.run(timeout)
 			}
 		}()
 	}
-	// hardest (largest) first
-	sort.SliceStable(prepared, func(i, j int) bool { return qsize(prepared[i]) > qsize(prepared[j]) })
-	for _, po := range prepared {
-		ch <- po
+	for _, j := range jobs2 {
+		ch <- j
 	}
 	close(ch)
 	wg.Wait()
+	for _, po := range prepared {
+		if js := byPO[po]; len(js) > 0 {
+			po.Collect(js)
+		}
+	}
 
 	// report
 	known := loadKnown(filepath.Join(*verif, "known_findings.json"))
@@ -277,8 +303,8 @@ func main() {
 			continue
 		}
 		solverSecs += o.Res.Seconds
-		if o.Res.Seconds > maxSecs {
-			maxSecs, slowest = o.Res.Seconds, o.Name
+		if o.Res.MaxSeconds > maxSecs {
+			maxSecs, slowest = o.Res.MaxSeconds, o.Name
 		}
 		if o.Cover {
 			g := coverGroups[o.Name]
